@@ -97,6 +97,53 @@ Fixpoint w_after (j : nat) (w : windower) : res (option windower) :=
     end
   end.
 
+(* ---- the provided Iterator methods (Windower overrides none of them): their default
+   definitions in core::iter, in terms of repeated next ---- *)
+
+(* Iterator::nth(k): advance_by(k) — k calls of next, stopping at the first None — then next *)
+Fixpoint w_nth (k : nat) (w : windower) : res (option (list A) * windower) :=
+  match k with
+  | 0 => let* r := w_next w in
+         Ok (match r with None => (None, w) | Some (c, w') => (Some c, w') end)
+  | S k' =>
+    let* r := w_next w in
+    match r with
+    | None => Ok (None, w)
+    | Some (_, w') => w_nth k' w'
+    end
+  end.
+
+(* Iterator::last = fold(None, |_, x| Some(x)); Iterator::count = fold(0, |n, _| n + 1);
+   collect / fold / for_each: every item in order.  [fuel] bounds the number of next calls. *)
+Definition w_last (fuel : nat) (w : windower) : res (option (list A) * windower) :=
+  let* r := w_drain fuel w in Ok (last (map Some (fst r)) None, snd r).
+Definition w_count (fuel : nat) (w : windower) : res (nat * windower) :=
+  let* r := w_drain fuel w in Ok (length (fst r), snd r).
+
+(* StepBy<I>::next: the first call is iter.nth(0) (= next), every later one iter.nth(step - 1);
+   Skip<I>::next: the first call is iter.nth(k);
+   step_by(k).take(t) collected *)
+Fixpoint w_step_by_rest (k t : nat) (w : windower) : res (list (list A) * windower) :=
+  match t with
+  | 0 => Ok ([], w)
+  | S t' =>
+    let* r := w_nth (k - 1) w in
+    match r with
+    | (None, w') => Ok ([], w')
+    | (Some c, w') => let* r' := w_step_by_rest k t' w' in Ok (c :: fst r', snd r')
+    end
+  end.
+Definition w_step_by_take (k t : nat) (w : windower) : res (list (list A) * windower) :=
+  match t with
+  | 0 => Ok ([], w)
+  | S t' =>
+    let* r := w_next w in
+    match r with
+    | None => Ok ([], w)
+    | Some (c, w') => let* r' := w_step_by_rest k t' w' in Ok (c :: fst r', snd r')
+    end
+  end.
+
 End Windower.
 Arguments windower A : clear implicits.
 
